@@ -795,29 +795,60 @@ Proof.
   apply negb_true_iff in H1. apply negb_true_iff in H2. destruct n; cbn in Hk; congruence.
 Qed.
 
+(* setting a path outside .datasets keeps the index invariant *)
+Lemma ds_inv_set_outside f p n : in_ds p = false -> ds_inv f -> ds_inv (set f p n).
+Proof.
+  intros Hp. apply ds_inv_frame. intros q Hq _. apply lookup_set_other. intros <-. congruence.
+Qed.
+
 (* writing the model file of key K, inside its transaction, with a link that is good *)
 Lemma runs_write_model f K h link :
   J f -> is_dir f (key_dir K) = true -> is_file f (model_file K) = false ->
   (link <> 0%N -> lookup f (csv link) = Some (File [T_CSV; h])) ->
   runs (write_file (model_file K) [T_MODEL; K; h; link]) f tt (set f (model_file K) (File [T_MODEL; K; h; link])).
 Proof.
-  intros [HS HL] Hd Hnf Hlink.
+  intros [HS [HL HD]] Hd Hnf Hlink.
   assert (Hcw : can_write f (model_file K) = true) by (apply can_write_file; [exact HS | reflexivity | exact Hd]).
   destruct (not_dir_of_can_write _ _ Hcw) as [Hnd Hpo].
   replace (set f (model_file K) (File [T_MODEL; K; h; link]))
     with (apply_op (OpenW (model_file K) [T_MODEL; K; h; link]) f) by (cbn; rewrite Hcw; reflexivity).
   apply runs_single; [rewrite write_file_eq, Hcw; reflexivity | |].
-  - intros j. cbn [tear_op]. rewrite Hcw. split.
+  - intros j. cbn [tear_op]. rewrite Hcw. split; [|split].
     + apply shape_set; auto; discriminate.
     + intros K1 K2 h1 n1 Hm Hn. destruct (N.eq_dec K1 K) as [-> | Hne].
       * rewrite lookup_set_same in Hm. discriminate.
       * rewrite lookup_set_other in Hm by (intros [= E]; congruence). rewrite lookup_set_other by discriminate.
         eapply HL; eassumption.
-  - cbn [apply_op]. rewrite Hcw. split.
+    + apply ds_inv_set_outside; [reflexivity | exact HD].
+  - cbn [apply_op]. rewrite Hcw. split; [|split].
     + apply shape_set; auto; discriminate.
     + intros K1 K2 h1 n1 Hm Hn. rewrite lookup_set_other by discriminate. destruct (N.eq_dec K1 K) as [-> | Hne].
       * rewrite lookup_set_same in Hm. injection Hm as <- <- <-. apply Hlink. exact Hn.
       * rewrite lookup_set_other in Hm by (intros [= E]; congruence). eapply HL; eassumption.
+    + apply ds_inv_set_outside; [reflexivity | exact HD].
+Qed.
+
+(* a data file number without index entry, and setting its csv / datainfo *)
+Lemma ds_inv_set_unindexed f p n0 nd :
+  (p = csv n0 \/ p = dinfo n0) -> (forall h, lookup f (hidx h n0) = None) -> ds_inv f -> ds_inv (set f p nd).
+Proof.
+  intros Hp Hni HD h c Hc.
+  assert (Hne : forall h' c', hdir h' ++ [c'] <> p) by (intros h' c' E; destruct Hp as [-> | ->]; discriminate E).
+  unfold exists_ in Hc. rewrite lookup_set_other in Hc by (intros E; symmetry in E; exact (Hne _ _ E)).
+  destruct (HD h c Hc) as [n [di [-> [H1 [H2 [H3 H4]]]]]].
+  assert (Hnn : n <> n0).
+  { intros ->. specialize (Hni h). change (hdir h ++ [CCsv n0]) with (hidx h n0) in Hc. rewrite Hni in Hc. discriminate. }
+  exists n, di. repeat split; auto.
+  - intros c' Hc'. apply H2. unfold exists_ in *. rewrite lookup_set_other in Hc' by (intros E; symmetry in E; exact (Hne _ _ E)). exact Hc'.
+  - rewrite lookup_set_other; [exact H3|]. destruct Hp as [-> | ->]; intros [= E]; congruence.
+  - rewrite lookup_set_other; [exact H4|]. destruct Hp as [-> | ->]; intros [= E]; congruence.
+Qed.
+
+Lemma unindexed_of_no_csv f n : ds_inv f -> lookup f (csv n) = None -> forall h, lookup f (hidx h n) = None.
+Proof.
+  intros HD Hn h. destruct (lookup f (hidx h n)) eqn:E; [|reflexivity]. exfalso.
+  assert (Hc : exists_ f (hdir h ++ [CCsv n]) = true) by (unfold exists_; change (hdir h ++ [CCsv n]) with (hidx h n); rewrite E; reflexivity).
+  destruct (HD h _ Hc) as [n' [di [E' [_ [_ [H3 _]]]]]]. injection E' as <-. congruence.
 Qed.
 
 (* writing a fresh csv *)
@@ -825,17 +856,37 @@ Lemma runs_write_csv f n h :
   J f -> lookup f (csv n) = None -> is_dir f ds_dir = true ->
   runs (write_file (csv n) [T_CSV; h]) f tt (set f (csv n) (File [T_CSV; h])).
 Proof.
-  intros [HS HL] Hnone Hd.
+  intros [HS [HL HD]] Hnone Hd.
   assert (Hcw : can_write f (csv n) = true) by (unfold can_write; rewrite Hnone; exact Hd).
   assert (Hfresh : forall X, link_inv (set f (csv n) X)).
   { intros X K1 K2 h1 n1 Hm Hn. rewrite lookup_set_other in Hm by discriminate.
     pose proof (HL _ _ _ _ Hm Hn) as E. destruct (N.eq_dec n1 n) as [-> | Hne]; [congruence|].
     rewrite lookup_set_other by (intros [= E']; congruence). exact E. }
+  assert (Hds : forall X, ds_inv (set f (csv n) X)).
+  { intros X. apply (ds_inv_set_unindexed f (csv n) n); [left; reflexivity | apply unindexed_of_no_csv; assumption | exact HD]. }
   assert (Hnd : is_dir f (csv n) = false) by (unfold is_dir; rewrite Hnone; reflexivity).
   replace (set f (csv n) (File [T_CSV; h])) with (apply_op (OpenW (csv n) [T_CSV; h]) f) by (cbn; rewrite Hcw; reflexivity).
   apply runs_single; [rewrite write_file_eq, Hcw; reflexivity | |].
-  - intros j. cbn [tear_op]. rewrite Hcw. split; [apply shape_set; auto; discriminate | apply Hfresh].
-  - cbn [apply_op]. rewrite Hcw. split; [apply shape_set; auto; discriminate | apply Hfresh].
+  - intros j. cbn [tear_op]. rewrite Hcw. split; [apply shape_set; auto; discriminate | split; [apply Hfresh | apply Hds]].
+  - cbn [apply_op]. rewrite Hcw. split; [apply shape_set; auto; discriminate | split; [apply Hfresh | apply Hds]].
+Qed.
+
+(* writing the datainfo of a data file number that has no index entry yet *)
+Lemma runs_write_dinfo f n c :
+  J f -> (forall h, lookup f (hidx h n) = None) -> is_dir f ds_dir = true ->
+  runs (write_file (dinfo n) c) f tt (set f (dinfo n) (File c)).
+Proof.
+  intros [HS [HL HD]] Hni Hd.
+  assert (Hcw : can_write f (dinfo n) = true) by (apply can_write_file; [exact HS | reflexivity | exact Hd]).
+  destruct (not_dir_of_can_write _ _ Hcw) as [Hnd Hpo].
+  assert (Hl : forall X, link_inv (set f (dinfo n) X)).
+  { intros X. eapply link_inv_frame; [| |exact HL]; intros p Hp; apply lookup_set_other; intros <-; discriminate. }
+  assert (Hds : forall X, ds_inv (set f (dinfo n) X)).
+  { intros X. apply (ds_inv_set_unindexed f (dinfo n) n); [right; reflexivity | exact Hni | exact HD]. }
+  replace (set f (dinfo n) (File c)) with (apply_op (OpenW (dinfo n) c) f) by (cbn; rewrite Hcw; reflexivity).
+  apply runs_single; [rewrite write_file_eq, Hcw; reflexivity | |].
+  - intros j. cbn [tear_op]. rewrite Hcw. split; [apply shape_set; auto; discriminate | split; [apply Hl | apply Hds]].
+  - cbn [apply_op]. rewrite Hcw. split; [apply shape_set; auto; discriminate | split; [apply Hl | apply Hds]].
 Qed.
 
 Lemma runs_noop {A} (m : M A) o f a :
@@ -866,90 +917,39 @@ Proof.
   rewrite <- Ed, removelast_last in Hp. congruence.
 Qed.
 
-(* phase B, the dataset part *)
-Lemma runs_store_dataset f m :
-  J f -> ds_inv f -> is_dir f [CDb] = true ->
-  exists link f', runs (store_dataset m f) f link f'
-    /\ ds_inv f'
-    /\ (link <> 0%N -> lookup f' (csv link) = Some (File [T_CSV; m_dh m]))
-    /\ (forall q, in_ds q = false -> lookup f' q = lookup f q).
+(* creating the index entry of a complete dataset in an index directory without entries *)
+Lemma runs_touch_index f h n di :
+  J f -> is_dir f (hdir h) = true -> (forall c, lookup f (hdir h ++ [c]) = None) -> n <> 0%N ->
+  lookup f (csv n) = Some (File [T_CSV; h]) -> lookup f (dinfo n) = Some (File [T_DI; di; n]) ->
+  runs (touch (hidx h n)) f tt (set f (hidx h n) (File [])).
 Proof.
-  intros HJ HD Hdb. set (h := m_dh m). unfold store_dataset. fold h.
-  destruct (is_dir f (hdir h)) eqn:Ehd.
-  - (* the dataset is indexed *)
-    destruct (HD h Ehd) as [n [di [Hn0 [Hmem [Hcsv Hdi]]]]].
-    destruct (children_head f (hdir h) (CCsv n) Hmem) as [l El]. rewrite El.
-    exists (if N.eqb di (m_di m) then n else 0%N), f. split; [|split; [exact HD | split; [|reflexivity]]].
-    + eapply runs_bind; [apply (runs_noop _ (Listdir (hdir h))); [exact HJ | reflexivity | reflexivity | reflexivity]|].
-      eapply runs_bind.
-      * apply (runs_noop _ (OpenR (dinfo n))); [exact HJ | | reflexivity | reflexivity].
-        rewrite read_file_eq, Hdi. reflexivity.
-      * cbn. apply runs_ret.
-    + destruct (N.eqb di (m_di m)); [intros _; exact Hcsv | congruence].
-  - (* new dataset *)
-    destruct (runs_mkdir_p f (hdir h) HJ (prefixes_hdir h)) as [fa [Ra [Da Fa]]].
-    assert (HJa : J fa) by (eapply runs_J; eassumption).
-    set (n := (highest fa + 1)%N).
-    assert (Hhd : is_dir fa (hdir h) = true) by (apply Da, prefix_refl).
-    assert (Hds : is_dir fa ds_dir = true) by (apply Da; exists [CHash; CDh h]; reflexivity).
-    destruct (runs_touch fa (hidx h n) HJa eq_refl eq_refl eq_refl Hhd) as [fb [Rb [Eb [Fb _]]]].
-    assert (HJb : J fb) by (eapply runs_J; eassumption).
-    assert (Hcn : lookup fb (csv n) = None) by (rewrite Fb by discriminate; apply csv_fresh).
-    assert (Hdsb : is_dir fb ds_dir = true) by (unfold is_dir; rewrite Fb by discriminate; exact Hds).
-    pose proof (runs_write_csv fb n h HJb Hcn Hdsb) as Rc. set (fc := set fb (csv n) (File [T_CSV; h])) in *.
-    assert (HJc : J fc) by (eapply runs_J; eassumption).
-    assert (Hcw : can_write fc (dinfo n) = true).
-    { apply can_write_file; [exact (proj1 HJc) | reflexivity|]. change (is_dir fc ds_dir = true).
-      unfold is_dir, fc. rewrite lookup_set_other by discriminate. exact Hdsb. }
-    pose proof (runs_write_quiet fc (dinfo n) [T_DI; m_di m; n] HJc eq_refl Hcw) as Rd.
-    set (fd := set fc (dinfo n) (File [T_DI; m_di m; n])) in *.
-    exists n, fd. split; [|split; [|split]].
-    + eapply runs_bind; [exact Ra|]. apply runs_get.
-      eapply runs_bind; [apply (runs_noop _ (Listdir ds_dir)); [exact HJa | reflexivity | reflexivity | reflexivity]|].
-      fold n. eapply runs_bind; [exact Rb|]. eapply runs_bind; [exact Rc|]. eapply runs_bind; [exact Rd|]. apply runs_ret.
-    + (* the index is consistent again *)
-      assert (Hfd : forall q, q <> dinfo n -> q <> csv n -> q <> hidx h n -> ~ is_prefix q (hdir h) -> lookup fd q = lookup f q).
-      { intros q H1 H2 H3 H4. unfold fd, fc. rewrite !lookup_set_other by congruence. rewrite Fb by congruence. apply Fa. exact H4. }
-      assert (Hcsv_f : lookup f (csv n) = None).
-      { rewrite <- (Fa (csv n)) by (intros Hp; apply prefix_firstn in Hp; cbn in Hp; discriminate). apply csv_fresh. }
-      intros h' Hd'. destruct (N.eq_dec h' h) as [-> | Hne].
-      * exists n, (m_di m). split; [unfold n; rewrite N.add_1_r; apply N.neq_succ_0|]. split; [|split].
-        -- intros c. split.
-           ++ intros He. destruct (path_eq_dec (hdir h ++ [c]) (hidx h n)) as [E | E]; [injection E as ->; reflexivity|].
-              exfalso. unfold exists_ in He. rewrite Hfd in He; try (intros E'; discriminate E'); try exact E.
-              ** rewrite (shape_child_none f (hdir h) c (proj1 HJ) Ehd) in He. discriminate.
-              ** apply not_prefix_longer. rewrite app_length. cbn. lia.
-           ++ intros ->. unfold exists_, fd, fc. change (hdir h ++ [CCsv n]) with (hidx h n).
-              rewrite !lookup_set_other by discriminate. exact Eb.
-        -- unfold fd, fc. rewrite lookup_set_other by discriminate. apply lookup_set_same.
-        -- unfold fd. apply lookup_set_same.
-      * assert (Hd0 : is_dir f (hdir h') = true).
-        { unfold is_dir in *. rewrite Hfd in Hd'; try discriminate; [exact Hd'|].
-          intros Hp. pose proof (prefix_firstn _ _ Hp) as E. cbn in E. injection E as E. congruence. }
-        destruct (HD h' Hd0) as [n' [di' [Hn0 [Hmem [Hcsv' Hdi']]]]].
-        assert (Hnn : n' <> n) by (intros ->; congruence).
-        exists n', di'. split; [exact Hn0|]. split; [|split].
-        -- intros c. rewrite <- Hmem. unfold exists_. rewrite Hfd; try discriminate; [reflexivity| |].
-           ++ intros [= E _]. congruence.
-           ++ apply not_prefix_longer. rewrite app_length. cbn. lia.
-        -- rewrite Hfd; try discriminate; [exact Hcsv' | intros [= E]; congruence|].
-           intros Hp. apply prefix_firstn in Hp. cbn in Hp. discriminate.
-        -- rewrite Hfd; try discriminate; [exact Hdi' | intros [= E]; congruence|].
-           intros Hp. apply prefix_firstn in Hp. cbn in Hp. discriminate.
-    + intros _. unfold fd, fc. rewrite lookup_set_other by discriminate. apply lookup_set_same.
-    + intros q Hq. unfold fd, fc. rewrite !lookup_set_other by (intros <-; discriminate).
-      rewrite Fb by (intros ->; discriminate).
-      destruct q as [|c1 [|c2 q]].
-      * (* the context directory itself: a directory before and after *)
-        assert (H0 : is_dir f [] = true).
-        { apply is_dir_lookup in Hdb. destruct (proj1 HJ _ _ Hdb) as [_ [Hp _]]. exact Hp. }
-        pose proof (Da [] (prefix_nil _)) as H1. apply is_dir_lookup in H0. apply is_dir_lookup in H1. congruence.
-      * destruct (comp_eqb c1 CDb) eqn:Ec.
-        -- apply comp_eqb_eq in Ec. subst c1. pose proof (Da [CDb] (ex_intro _ [CDatasets; CHash; CDh h] eq_refl)) as H1.
-           apply is_dir_lookup in Hdb. apply is_dir_lookup in H1. congruence.
-        -- apply Fa. intros Hp. apply prefix_firstn in Hp. cbn in Hp. injection Hp as ->. rewrite comp_eqb_refl in Ec. discriminate.
-      * apply Fa. intros Hp. apply prefix_firstn in Hp. cbn in Hp.
-        destruct q as [|c3 [|c4 q]]; cbn in Hp; injection Hp as -> ->; discriminate.
+  intros HJ Hd Hempty Hn Hcsv Hdi. destruct HJ as [HS [HL HD]].
+  assert (Hne : exists_ f (hidx h n) = false) by (unfold exists_; change (hidx h n) with (hdir h ++ [CCsv n]); rewrite Hempty; reflexivity).
+  assert (Hpo : parent_ok f (hidx h n) = true) by exact Hd.
+  assert (HJf : J f) by (split; [exact HS | split; assumption]).
+  assert (HJ' : J (set f (hidx h n) (File []))).
+  { split; [|split].
+    - apply shape_set; auto using not_dir_of_absent. discriminate.
+    - eapply link_inv_frame; [| |exact HL]; intros p Hp; apply lookup_set_other; intros <-; discriminate.
+    - intros h' c' Hc'. unfold exists_ in Hc'.
+      destruct (path_eq_dec (hidx h n) (hdir h' ++ [c'])) as [E | E].
+      + injection E as <- <-. exists n, di. split; [reflexivity|]. split; [exact Hn|]. split; [|split].
+        * intros c'' Hc''. unfold exists_ in Hc''. destruct (path_eq_dec (hidx h n) (hdir h ++ [c''])) as [E2 | E2];
+            [injection E2 as <-; reflexivity|]. rewrite lookup_set_other, Hempty in Hc'' by exact E2. discriminate.
+        * rewrite lookup_set_other by discriminate. exact Hcsv.
+        * rewrite lookup_set_other by discriminate. exact Hdi.
+      + rewrite lookup_set_other in Hc' by exact E.
+        assert (Hh : h' <> h) by (intros ->; rewrite Hempty in Hc'; discriminate).
+        destruct (HD h' c' Hc') as [n' [di' [-> [H1 [H2 [H3 H4]]]]]]. exists n', di'. split; [reflexivity|]. split; [exact H1|].
+        split; [|split].
+        * intros c'' Hc''. apply H2. unfold exists_ in *. rewrite lookup_set_other in Hc''; [exact Hc''|]. intros [= E' _]. congruence.
+        * rewrite lookup_set_other by discriminate. exact H3.
+        * rewrite lookup_set_other by discriminate. exact H4. }
+  assert (Hrun : run_ops [Utime (hidx h n); OpenC (hidx h n)] f = set f (hidx h n) (File [])).
+  { unfold run_ops. cbn [fold_left apply_op]. rewrite Hpo, Hne. reflexivity. }
+  unfold runs. rewrite touch_eq, Hne, Hpo. cbn [fst snd]. rewrite Hrun. split; [reflexivity|]. split; [reflexivity|].
+  cbn [jsteps tear_op apply_op]. rewrite Hpo, Hne. cbn [andb negb].
+  split; [intros j; exact HJf|]. split; [exact HJf|]. split; [intros j; exact HJf|]. split; [exact HJ' | exact I].
 Qed.
 
 Lemma runs_mkdir_p_existing f p : J f -> is_dir f p = true -> runs (mkdir_p p) f tt f.
@@ -966,24 +966,117 @@ Proof.
   rewrite mkdir1_eq, He, Hd. reflexivity.
 Qed.
 
+
+(* the "new dataset" part: csv, datainfo, then the index entry *)
+Lemma runs_create_tail fa m :
+  J fa -> is_dir fa (hdir (m_dh m)) = true -> is_dir fa ds_dir = true ->
+  (forall c, lookup fa (hdir (m_dh m) ++ [c]) = None) ->
+  exists n f', runs (f1 <- get ;; emit (Listdir ds_dir) ;;
+                     let n := (highest f1 + 1)%N in
+                     write_file (csv n) [T_CSV; m_dh m] ;; write_file (dinfo n) [T_DI; m_di m; n] ;;
+                     touch (hidx (m_dh m) n) ;; ret n) fa n f'
+    /\ lookup f' (csv n) = Some (File [T_CSV; m_dh m]) /\ n <> 0%N
+    /\ (forall q, in_ds q = false -> lookup f' q = lookup fa q).
+Proof.
+  intros HJa Hhd Hds Hempty. set (h := m_dh m) in *. set (n := (highest fa + 1)%N).
+  assert (Hn0 : n <> 0%N) by (unfold n; rewrite N.add_1_r; apply N.neq_succ_0).
+  assert (Hcn : lookup fa (csv n) = None) by apply csv_fresh.
+  pose proof (runs_write_csv fa n h HJa Hcn Hds) as Rc. set (fc := set fa (csv n) (File [T_CSV; h])) in *.
+  assert (HJc : J fc) by (eapply runs_J; eassumption).
+  assert (Hni : forall h', lookup fc (hidx h' n) = None).
+  { intros h'. unfold fc. rewrite lookup_set_other by discriminate. apply unindexed_of_no_csv; [apply HJa | exact Hcn]. }
+  assert (Hdsc : is_dir fc ds_dir = true) by (unfold is_dir, fc; rewrite lookup_set_other by discriminate; exact Hds).
+  pose proof (runs_write_dinfo fc n [T_DI; m_di m; n] HJc Hni Hdsc) as Rd.
+  set (fd := set fc (dinfo n) (File [T_DI; m_di m; n])) in *.
+  assert (HJd : J fd) by (eapply runs_J; eassumption).
+  assert (Hfd : forall q, q <> dinfo n -> q <> csv n -> lookup fd q = lookup fa q).
+  { intros q H1 H2. unfold fd, fc. rewrite !lookup_set_other by congruence. reflexivity. }
+  assert (Ri : runs (touch (hidx h n)) fd tt (set fd (hidx h n) (File []))).
+  { apply (runs_touch_index fd h n (m_di m) HJd); [| | exact Hn0 | |].
+    - unfold is_dir. rewrite Hfd by discriminate. exact Hhd.
+    - intros c. rewrite Hfd by discriminate. apply Hempty.
+    - unfold fd, fc. rewrite lookup_set_other by discriminate. apply lookup_set_same.
+    - unfold fd. apply lookup_set_same. }
+  exists n, (set fd (hidx h n) (File [])). split; [|split; [|split; [exact Hn0|]]].
+  - apply runs_get. eapply runs_bind; [apply (runs_noop _ (Listdir ds_dir)); [exact HJa | reflexivity | reflexivity | reflexivity]|].
+    fold n. eapply runs_bind; [exact Rc|]. eapply runs_bind; [exact Rd|]. eapply runs_bind; [exact Ri | apply runs_ret].
+  - rewrite lookup_set_other by discriminate. unfold fd, fc. rewrite lookup_set_other by discriminate. apply lookup_set_same.
+  - intros q Hq. rewrite lookup_set_other by (intros <-; discriminate). apply Hfd; intros ->; discriminate.
+Qed.
+
+(* phase B, the dataset part *)
+Lemma runs_store_dataset f m :
+  J f -> is_dir f [CDb] = true ->
+  exists link f', runs (store_dataset m f) f link f'
+    /\ (link <> 0%N -> lookup f' (csv link) = Some (File [T_CSV; m_dh m]))
+    /\ (forall q, in_ds q = false -> lookup f' q = lookup f q).
+Proof.
+  intros HJ Hdb. set (h := m_dh m). unfold store_dataset. cbv zeta. fold h.
+  destruct (is_dir f (hdir h)) eqn:Ehd.
+  - destruct (children f (hdir h)) as [|c l] eqn:Ech.
+    + (* an index directory without entry: what an interrupted store left *)
+      assert (Hempty : forall c, lookup f (hdir h ++ [c]) = None).
+      { intros c. destruct (lookup f (hdir h ++ [c])) eqn:E; [|reflexivity]. exfalso.
+        assert (Hin : In c (children f (hdir h))) by (apply in_children; unfold exists_; rewrite E; reflexivity).
+        rewrite Ech in Hin. destruct Hin. }
+      assert (Hds : is_dir f ds_dir = true).
+      { apply (dirs_upward f (hdir h)); [apply shape_path_clear; [apply HJ | apply prefixes_hdir] | exact Ehd|].
+        exists [CHash; CDh h]. reflexivity. }
+      destruct (runs_create_tail f m HJ Ehd Hds Hempty) as [n [f' [R [H1 [H2 H3]]]]].
+      exists n, f'. split; [|split; [intros _; exact H1 | exact H3]].
+      eapply runs_bind; [apply (runs_noop _ (Listdir (hdir h))); [exact HJ | reflexivity | reflexivity | reflexivity]|].
+      eapply runs_bind; [apply runs_mkdir_p_existing; assumption | exact R].
+    + (* the dataset is indexed *)
+      assert (Hc : exists_ f (hdir h ++ [c]) = true) by (apply in_children; rewrite Ech; left; reflexivity).
+      destruct (proj2 (proj2 HJ) h c Hc) as [n [di [-> [Hn0 [_ [Hcsv Hdi]]]]]].
+      exists (if N.eqb di (m_di m) then n else 0%N), f. split; [|split; [|reflexivity]].
+      * eapply runs_bind; [apply (runs_noop _ (Listdir (hdir h))); [exact HJ | reflexivity | reflexivity | reflexivity]|].
+        eapply runs_bind.
+        -- apply (runs_noop _ (OpenR (dinfo n))); [exact HJ | | reflexivity | reflexivity].
+           rewrite read_file_eq, Hdi. reflexivity.
+        -- cbn. apply runs_ret.
+      * destruct (N.eqb di (m_di m)); [intros _; exact Hcsv | congruence].
+  - (* no index directory *)
+    destruct (runs_mkdir_p f (hdir h) HJ (prefixes_hdir h)) as [fa [Ra [Da Fa]]].
+    assert (HJa : J fa) by (eapply runs_J; eassumption).
+    assert (Hhd : is_dir fa (hdir h) = true) by (apply Da, prefix_refl).
+    assert (Hds : is_dir fa ds_dir = true) by (apply Da; exists [CHash; CDh h]; reflexivity).
+    assert (Hempty : forall c, lookup fa (hdir h ++ [c]) = None).
+    { intros c. rewrite Fa by (apply not_prefix_longer; rewrite app_length; cbn; lia).
+      apply shape_child_none; [apply HJ | exact Ehd]. }
+    destruct (runs_create_tail fa m HJa Hhd Hds Hempty) as [n [f' [R [H1 [H2 H3]]]]].
+    exists n, f'. split; [|split; [intros _; exact H1|]].
+    + eapply runs_bind; [exact Ra | exact R].
+    + intros q Hq. rewrite H3 by exact Hq.
+      destruct q as [|c1 [|c2 q]].
+      * assert (H0 : is_dir f [] = true).
+        { apply is_dir_lookup in Hdb. destruct (proj1 HJ _ _ Hdb) as [_ [Hp _]]. exact Hp. }
+        pose proof (Da [] (prefix_nil _)) as H1'. apply is_dir_lookup in H0. apply is_dir_lookup in H1'. congruence.
+      * destruct (comp_eqb c1 CDb) eqn:Ec.
+        -- apply comp_eqb_eq in Ec. subst c1. pose proof (Da [CDb] (ex_intro _ [CDatasets; CHash; CDh h] eq_refl)) as H1'.
+           apply is_dir_lookup in Hdb. apply is_dir_lookup in H1'. congruence.
+        -- apply Fa. intros Hp. apply prefix_firstn in Hp. cbn in Hp. injection Hp as ->. rewrite comp_eqb_refl in Ec. discriminate.
+      * apply Fa. intros Hp. apply prefix_firstn in Hp. cbn in Hp.
+        destruct q as [|c3 [|c4 q]]; cbn in Hp; injection Hp as -> ->; discriminate.
+Qed.
+
 (* phase B *)
 Lemma runs_store_model f m :
-  J f -> ds_inv f -> is_dir f (key_dir (m_key m)) = true -> is_dir f [CDb] = true ->
-  exists f2, runs (store_model m) f tt f2 /\ ds_inv f2 /\ is_file f2 (model_file (m_key m)) = true
+  J f -> is_dir f (key_dir (m_key m)) = true -> is_dir f [CDb] = true ->
+  exists f2, runs (store_model m) f tt f2 /\ is_file f2 (model_file (m_key m)) = true
              /\ (forall q, in_ds q = false -> q <> model_file (m_key m) -> lookup f2 q = lookup f q).
 Proof.
-  intros HJ HD Hk Hdb. set (K := m_key m) in *. rewrite store_model_unfold. fold K.
+  intros HJ Hk Hdb. set (K := m_key m) in *. rewrite store_model_unfold. fold K.
   destruct (is_file f (model_file K)) eqn:Ef.
   - exists f. split; [apply runs_get; rewrite Ef; apply runs_ret | auto].
-  - destruct (runs_store_dataset f m HJ HD Hdb) as [link [f' [Rd [HD' [Hl Fr]]]]].
+  - destruct (runs_store_dataset f m HJ Hdb) as [link [f' [Rd [Hl Fr]]]].
     assert (HJ' : J f') by (eapply runs_J; eassumption).
     assert (Hk' : is_dir f' (key_dir K) = true) by (unfold is_dir; rewrite Fr by reflexivity; exact Hk).
     assert (Hnf' : is_file f' (model_file K) = false) by (unfold is_file; rewrite Fr by reflexivity; exact Ef).
     pose proof (runs_write_model f' K (m_dh m) link HJ' Hk' Hnf' Hl) as Rw.
-    eexists. split; [|split; [|split]].
+    eexists. split; [|split].
     + apply runs_get. rewrite Ef. eapply runs_bind; [exact Rd|].
       eapply runs_bind; [apply runs_mkdir1_existing; assumption | exact Rw].
-    + eapply ds_inv_frame; [|exact HD']. intros p Hp. apply lookup_set_other. intros <-. discriminate.
     + unfold is_file. rewrite lookup_set_same. reflexivity.
     + intros q Hq Hne. rewrite lookup_set_other by congruence. apply Fr. exact Hq.
 Qed.
@@ -1018,20 +1111,17 @@ Qed.
 
 (* the whole database-level store *)
 Lemma runs_db_store f m :
-  J f -> ds_inv f -> exists_ f (pending (m_key m)) = false ->
+  J f -> exists_ f (pending (m_key m)) = false ->
   exists (u : unit) f', runs (db_store_model_entry m) f u f'
-    /\ (ds_inv f' /\ visible f' (m_key m) = true
+    /\ (visible f' (m_key m) = true
         /\ is_dir f' (key_dir (m_key m)) = true
         /\ (forall q, in_ds q = false -> ~ is_prefix q (meta_dir (m_key m)) -> q <> db_lock ->
                       q <> pending (m_key m) -> q <> model_file (m_key m) -> q <> results_file (m_key m) ->
                       lookup f' q = lookup f q)).
 Proof.
-  intros HJ HD Hp. set (K := m_key m) in *. unfold db_store_model_entry, transaction. fold K.
+  intros HJ Hp. set (K := m_key m) in *. unfold db_store_model_entry, transaction. fold K.
   apply (runs_begin_k f K _ _ HJ Hp). intros f1 HJ1 Hp1 Hm1 Hk1 Hdb1 F1.
-  assert (HD1 : ds_inv f1).
-  { eapply ds_inv_frame; [|exact HD]. intros q Hq. apply F1; try (intros ->; discriminate).
-    intros Hpre. apply prefix_meta_not_ds in Hpre. congruence. }
-  destruct (runs_store_model f1 m HJ1 HD1 Hk1 Hdb1) as [f2 [R2 [HD2 [Hf2 F2]]]]. fold K in R2, Hf2, F2.
+  destruct (runs_store_model f1 m HJ1 Hk1 Hdb1) as [f2 [R2 [Hf2 F2]]]. fold K in R2, Hf2, F2.
   assert (HJ2 : J f2) by (eapply runs_J; eassumption).
   assert (Hm2 : is_dir f2 (meta_dir K) = true) by (unfold is_dir; rewrite F2 by (try reflexivity; discriminate); exact Hm1).
   destruct (runs_store_results f2 m HJ2 Hm2) as [f3 [R3 F3]]. fold K in F3.
@@ -1041,12 +1131,10 @@ Proof.
   assert (Hq : jquiet (Remove (pending K)) = true) by reflexivity.
   destruct (jquiet_step f3 _ Hq HJ3) as [T4 J4].
   assert (Happ : apply_op (Remove (pending K)) f3 = remove f3 (pending K)) by (cbn [apply_op]; rewrite Hp3; reflexivity).
-  exists tt, (remove f3 (pending K)). split; [|split; [|split; [|split]]].
+  exists tt, (remove f3 (pending K)). split; [|split; [|split]].
   - unfold store_model_entry. eapply runs_bind; [eapply runs_bind; [exact R2 | exact R3]|].
     eapply runs_bind; [|apply runs_ret]. rewrite <- Happ.
     apply runs_single; [rewrite remove_file_full_eq, Hp3; reflexivity | exact T4 | exact J4].
-  - eapply ds_inv_frame; [|exact HD2]. intros q Hq'. rewrite lookup_remove_other by (intros <-; discriminate).
-    apply F3. intros ->. discriminate.
   - unfold visible, exists_, is_file. rewrite lookup_remove_same. cbn.
     rewrite lookup_remove_other by discriminate. rewrite F3 by discriminate. exact Hf2.
   - unfold is_dir. rewrite lookup_remove_other by discriminate. rewrite F3 by discriminate.
@@ -1056,39 +1144,7 @@ Proof.
 Qed.
 
 (* ========================================================================================= *)
-(* 8. every workload keeps J in all intermediate states and ds_inv between items               *)
-Lemma bulk_ops (S : op -> bool) (P : fs -> Prop) :
-  (forall o, S o = true -> jquiet o = true) ->
-  (forall o f, S o = true -> P f -> P (apply_op o f)) ->
-  forall ops f, J f -> P f -> forallb S ops = true -> jsteps ops f /\ P (run_ops ops f).
-Proof.
-  intros HS HP. induction ops as [|o ops IH]; intros f0 HJ Hp Hall; [split; [exact I | exact Hp]|].
-  cbn in Hall. apply andb_true_iff in Hall. destruct Hall as [Ho Hall].
-  destruct (jquiet_step f0 o (HS o Ho) HJ) as [H1 H2].
-  destruct (IH (apply_op o f0) H2 (HP o f0 Ho Hp) Hall) as [H3 H4]. split; [cbn; auto | exact H4].
-Qed.
-
-Lemma spec_bulk {A} (S : op -> bool) (P : fs -> Prop) (m : M A) :
-  (forall o, S o = true -> jquiet o = true) ->
-  (forall o f, S o = true -> P f -> P (apply_op o f)) ->
-  all_prog S m -> spec P m (fun _ => P) P.
-Proof.
-  intros HS HP Hall f HJ Hp. destruct (bulk_ops S P HS HP _ f HJ Hp (Hall f)) as [H1 H2].
-  split; [exact H1|]. destruct (snd (m f)); exact H2.
-Qed.
-
-Definition noremove (o : op) : bool := match o with Remove _ => false | _ => true end.
-
-Lemma exists_mono o f q : noremove o = true -> exists_ f q = true -> exists_ (apply_op o f) q = true.
-Proof.
-  intros Hn H. destruct (wtarget o) as [p|] eqn:Ht; [|unfold exists_; rewrite apply_op_frame by congruence; exact H].
-  destruct (path_eq_dec p q) as [-> | Hne]; [|unfold exists_; rewrite apply_op_frame by congruence; exact H].
-  destruct o; cbn [wtarget] in Ht; try discriminate; injection Ht as ->; cbn [apply_op];
-    try (rewrite H, andb_false_r; exact H).
-  - destruct (can_write f q); [unfold exists_; rewrite lookup_set_same; reflexivity | exact H].
-  - destruct (can_write f q); [|exact H]. destruct (lookup f q) as [[| | |]|]; unfold exists_; rewrite lookup_set_same; reflexivity.
-Qed.
-
+(* 8. every workload keeps J in all intermediate and torn states                               *)
 (* static facts about the primitives, for any predicate on operations *)
 Lemma all_mkdir1 S p b : S (Mkdir p) = true -> all_prog S (mkdir1 p b).
 Proof. intros H f. rewrite mkdir1_eq. cbn. rewrite H. reflexivity. Qed.
@@ -1115,24 +1171,15 @@ Proof.
   intros H f. unfold append_file. rewrite bind_get_eq, bind_emit_eq. destruct (can_write f p); cbn; rewrite H; reflexivity.
 Qed.
 
-(* quiet and never removing anything *)
-Definition qs (o : op) : bool := dsquiet o && noremove o.
-Lemma qs_jquiet o : qs o = true -> jquiet o = true.
-Proof. unfold qs, dsquiet. intros H. apply andb_true_iff in H. destruct H as [H _]. apply andb_true_iff in H. tauto. Qed.
 Lemma dsquiet_jquiet o : dsquiet o = true -> jquiet o = true.
-Proof. unfold dsquiet. intros H. apply andb_true_iff in H. tauto. Qed.
-
-Lemma dsquiet_keeps_ds o f : dsquiet o = true -> ds_inv f -> ds_inv (apply_op o f).
-Proof.
-  intros Hq HD. eapply ds_inv_frame; [|exact HD]. intros p Hp.
-  apply (dsquiet_ops_frame [o] f p); [cbn; rewrite Hq; reflexivity | left; exact Hp].
-Qed.
+Proof. unfold dsquiet. intros H. apply andb_true_iff in H. destruct H as [H _]. apply andb_true_iff in H. tauto. Qed.
 
 Ltac all_tac S :=
   repeat first
     [ apply all_mkdir_p; reflexivity | apply all_mkdir1; reflexivity | apply all_touch; reflexivity
     | apply all_lock; reflexivity | apply all_write_file; reflexivity | apply all_append_file; reflexivity
     | apply all_read_file; reflexivity | apply all_touch_excl; reflexivity | apply all_remove_file; reflexivity
+    | apply all_rename_file; reflexivity
     | match goal with
       | |- all_prog S (bind _ _) => apply all_bind; [|intro]
       | |- all_prog S (ret _) => apply all_ret
@@ -1175,40 +1222,49 @@ Proof. intros H. unfold forget. apply all_bind; [exact H | intro; apply all_ret]
 Lemma dsq_metadata K id : all_prog dsquiet (db_store_metadata K id).
 Proof. unfold db_store_metadata, transaction. all_tac dsquiet. Qed.
 
-Definition keeps {A} (m : M A) : Prop := spec ds_inv m (fun _ => ds_inv) ds_inv.
+(* J holds after every operation and every torn operation of the program, whatever its outcome *)
+Definition keeps {A} (m : M A) : Prop := forall f, J f -> jsteps (fst (m f)) f.
 
 Lemma keeps_dsquiet {A} (m : M A) : all_prog dsquiet m -> keeps m.
-Proof. intros H. apply (spec_bulk dsquiet); [apply dsquiet_jquiet | intros o f Ho; apply dsquiet_keeps_ds; exact Ho | exact H]. Qed.
-
-(* a transaction on a key whose PENDING marker exists stops at the marker *)
-Lemma keeps_txn_pending {A} K (body : M A) :
-  spec (fun f => ds_inv f /\ exists_ f (pending K) = true) (transaction K body) (fun _ => ds_inv) ds_inv.
 Proof.
-  set (P := fun f => ds_inv f /\ exists_ f (pending K) = true).
-  assert (Hb : forall B (m : M B), all_prog qs m -> spec P m (fun _ => P) P).
-  { intros B m Hm. apply (spec_bulk qs); [apply qs_jquiet | | exact Hm].
-    intros o f Ho [H1 H2]. unfold qs in Ho. apply andb_true_iff in Ho. destruct Ho as [Hd Hn].
-    split; [apply dsquiet_keeps_ds; assumption | apply exists_mono; assumption]. }
-  assert (Hb' : forall B (m : M B), all_prog qs m -> spec P m (fun _ => P) ds_inv).
-  { intros B m Hm. eapply spec_conseq; [| | |apply (Hb B m Hm)];
-      [intros f H; exact H | intros a f H; exact H | intros f [H _]; exact H]. }
-  unfold transaction.
-  apply spec_bind with (Q := fun _ => P); [apply Hb'; all_tac qs|]. intros u1.
-  apply spec_bind with (Q := fun _ => P); [apply Hb'; all_tac qs|].
-  intros u2. eapply spec_bind with (Q := fun _ _ => False).
-  - intros f HJ [HD He]. rewrite touch_excl_eq, He. cbn [fst snd].
-    assert (Hq : jquiet (OpenX (pending K)) = true) by reflexivity.
-    destruct (jquiet_step f _ Hq HJ) as [H1 H2]. split; [cbn; auto|].
-    change (run_ops [OpenX (pending K)] f) with (apply_op (OpenX (pending K)) f). apply dsquiet_keeps_ds; [reflexivity | exact HD].
-  - intros u3 f _ [].
+  intros H f HJ. apply jsteps_quiet; [|exact HJ]. specialize (H f). rewrite forallb_forall in *.
+  intros o Ho. apply dsquiet_jquiet, H, Ho.
+Qed.
+
+Lemma keeps_bind {A B} (m : M A) (k : A -> M B) : keeps m -> (forall a, keeps (k a)) -> keeps (bind m k).
+Proof.
+  intros Hm Hk f HJ. unfold bind. specialize (Hm f HJ). destruct (m f) as [ops r]. cbn [fst] in *.
+  destruct r as [e|a]; cbn [fst]; [exact Hm|].
+  specialize (Hk a (run_ops ops f) (jsteps_final _ _ HJ Hm)). destruct (k a (run_ops ops f)) as [ops2 r2]. cbn [fst] in *.
+  apply jsteps_app. split; assumption.
+Qed.
+
+(* after a successful first part, only the steps of the second part remain to be shown *)
+Lemma jsteps_after {A B} (m : M A) (k : A -> M B) f a f1 :
+  runs m f a f1 -> jsteps (fst (k a f1)) f1 -> jsteps (fst (bind m k f)) f.
+Proof.
+  intros [E1 [E2 E3]] H. unfold bind. destruct (m f) as [ops r]. cbn [fst snd] in *. subst r f1.
+  destruct (k a (run_ops ops f)) as [ops2 r2]. cbn [fst] in *. apply jsteps_app. split; assumption.
 Qed.
 
 Lemma keeps_db_store m : keeps (db_store_model_entry m).
 Proof.
-  intros f HJ HD. destruct (exists_ f (pending (m_key m))) eqn:Ep.
-  - apply (keeps_txn_pending (m_key m) (store_model_entry m) f HJ (conj HD Ep)).
-  - destruct (runs_db_store f m HJ HD Ep) as [u [f' [[E1 [E2 E3]] [HD' _]]]]. split; [exact E3|].
-    rewrite E1, <- E2. exact HD'.
+  intros f HJ. set (K := m_key m). destruct (exists_ f (pending K)) eqn:Ep.
+  - (* a PENDING marker exists: the transaction stops at the marker *)
+    unfold db_store_model_entry, transaction. fold K.
+    destruct (runs_mkdir_p f (meta_dir K) HJ (prefixes_meta_dir K)) as [fa [Ra [Da Fa]]].
+    assert (HJa : J fa) by (eapply runs_J; eassumption).
+    eapply jsteps_after; [exact Ra|].
+    assert (Hdb : is_dir fa [CDb] = true) by (apply Da; exists [CKey K; CPharmpy]; reflexivity).
+    destruct (runs_lock fa db_lock HJa eq_refl eq_refl eq_refl eq_refl Hdb) as [fb [Rb Fb]].
+    assert (HJb : J fb) by (eapply runs_J; eassumption).
+    eapply jsteps_after; [exact Rb|].
+    assert (Hpb : exists_ fb (pending K) = true).
+    { unfold exists_. rewrite Fb by discriminate. rewrite Fa by (apply not_prefix_longer; cbn; lia). exact Ep. }
+    unfold bind. rewrite touch_excl_eq, Hpb. cbn [fst].
+    assert (Hq : jquiet (OpenX (pending K)) = true) by reflexivity.
+    destruct (jquiet_step fb _ Hq HJb) as [H1 H2]. cbn [jsteps]. auto.
+  - destruct (runs_db_store f m HJ Ep) as [u [f' [[_ [_ E3]] _]]]. exact E3.
 Qed.
 
 Lemma shape_exists_dir f q : shape f -> dir_path q = true -> exists_ f q = true -> is_dir f q = true.
@@ -1219,32 +1275,24 @@ Qed.
 
 Lemma keeps_store_key name K : keeps (store_key name K).
 Proof.
-  intros f HJ HD. rewrite store_key_ops.
-  assert (Hres : forall ops, fst (store_key name K f) = ops -> ops = fst (store_key name K f)) by (intros; congruence).
-  destruct (path_exists f (name_link name)) eqn:E1.
-  - split; [exact I|]. destruct (snd (store_key name K f)); exact HD.
-  - destruct (exists_ f (key_dir K)) eqn:E2.
-    + assert (Hd : is_dir f (key_dir K) = true) by (apply shape_exists_dir; [exact (proj1 HJ) | reflexivity | exact E2]).
-      assert (Hfr : forall q, (in_ds q = true \/ is_model_file q = true \/ is_csv q = true) ->
-                              lookup (apply_op (Symlink (key_dir K) (name_link name)) f) q = lookup f q).
-      { intros q Hq. apply apply_op_frame. cbn. intros [= <-]. destruct Hq as [H|[H|H]]; discriminate. }
-      assert (HJ' : J (apply_op (Symlink (key_dir K) (name_link name)) f)).
-      { split.
-        - apply step_shape; [exact (proj1 HJ)|]. split; [reflexivity|]. intros t p [= <- <-]. exact Hd.
-        - eapply link_inv_frame; [| |exact (proj2 HJ)]; intros q Hq; apply Hfr; auto. }
-      split; [cbn [jsteps tear_op]; split; [intros j0; exact HJ | split; [exact HJ' | exact I]]|].
-      assert (HD' : ds_inv (run_ops [Symlink (key_dir K) (name_link name)] f)).
-      { eapply ds_inv_frame; [|exact HD]. intros q Hq. apply Hfr. auto. }
-      destruct (snd (store_key name K f)); exact HD'.
-    + split; [exact I|]. destruct (snd (store_key name K f)); exact HD.
+  intros f HJ. rewrite store_key_ops.
+  destruct (path_exists f (name_link name)); [exact I|].
+  destruct (exists_ f (key_dir K)) eqn:E2; [|exact I].
+  assert (Hd : is_dir f (key_dir K) = true) by (apply shape_exists_dir; [exact (proj1 HJ) | reflexivity | exact E2]).
+  assert (Hfr : forall q, protected q -> lookup (apply_op (Symlink (key_dir K) (name_link name)) f) q = lookup f q).
+  { intros q Hq. apply apply_op_frame; cbn; [|discriminate]. intros [= <-]. destruct Hq as [H|[H|[H _]]]; discriminate. }
+  cbn [jsteps tear_op]. split; [intros j; exact HJ|]. split; [|exact I]. destruct HJ as [HS [HL HD]]. split; [|split].
+  - apply step_shape; [exact HS|]. split; [reflexivity|]. intros t p [= <- <-]. exact Hd.
+  - eapply link_inv_frame; [| |exact HL]; intros q Hq; apply Hfr; unfold protected; auto.
+  - eapply ds_inv_frame; [|exact HD]. intros q H1 H2. apply Hfr. unfold protected. auto.
 Qed.
 
 Lemma keeps_item i : keeps (item_prog i).
 Proof.
   destruct i; cbn [item_prog].
   - apply keeps_dsquiet, dsq_ctx_init.
-  - unfold ctx_store, keeps. eapply spec_bind; [apply keeps_db_store|]. intros u.
-    eapply spec_bind; [apply keeps_store_key|]. intros u2. apply keeps_dsquiet, dsq_store_annotation.
+  - unfold ctx_store. apply keeps_bind; [apply keeps_db_store | intro].
+    apply keeps_bind; [apply keeps_store_key | intro]. apply keeps_dsquiet, dsq_store_annotation.
   - apply keeps_db_store.
   - apply keeps_dsquiet, dsq_metadata.
   - apply keeps_dsquiet, dsq_store_annotation.
@@ -1255,46 +1303,39 @@ Proof.
   - apply keeps_dsquiet, dsq_forget, dsq_retrieve_log.
 Qed.
 
-Lemma trace_keeps w : forall f0, J f0 -> ds_inv f0 ->
-  jsteps (trace w f0) f0 /\ ds_inv (run w f0) /\ J (run w f0).
+Lemma trace_keeps w : forall f0, J f0 -> jsteps (trace w f0) f0.
 Proof.
-  unfold run. induction w as [|i w IH]; intros f0 HJ HD; [cbn; auto|].
-  cbn [trace]. destruct (keeps_item i f0 HJ HD) as [Hs Hr]. fold (item_ops i f0) in Hs, Hr.
-  assert (HD1 : ds_inv (run_ops (item_ops i f0) f0)) by (unfold item_ops in *; destruct (snd (item_prog i f0)); exact Hr).
-  assert (HJ1 : J (run_ops (item_ops i f0) f0)) by (apply jsteps_final; assumption).
-  destruct (IH _ HJ1 HD1) as [H1 [H2 H3]]. rewrite run_ops_app. split; [apply jsteps_app; split; assumption | split; assumption].
+  induction w as [|i w IH]; intros f0 HJ; [exact I|]. cbn [trace].
+  pose proof (keeps_item i f0 HJ) as Hs. fold (item_ops i f0) in Hs.
+  apply jsteps_app. split; [exact Hs | apply IH, jsteps_final; assumption].
 Qed.
 
 Lemma J_empty : J [].
-Proof. split; [apply shape_empty | intros K K' h n H; discriminate]. Qed.
-Lemma ds_inv_empty : ds_inv [].
-Proof. intros h H. discriminate. Qed.
+Proof. split; [apply shape_empty | split; [intros K K' h n H; discriminate | intros h c H; discriminate]]. Qed.
 
 (* ---- the statements used in Properties.v --------------------------------------------------- *)
-Lemma consistent_closed_lemma :
-  forall f0 w, J f0 -> ds_inv f0 -> J (run w f0) /\ ds_inv (run w f0).
-Proof. intros f0 w HJ HD. destruct (trace_keeps w f0 HJ HD) as [_ [H1 H2]]. split; assumption. Qed.
+Lemma consistent_closed_lemma : forall f0 w, J f0 -> J (run w f0).
+Proof. intros f0 w HJ. unfold run. apply jsteps_final; [exact HJ | apply trace_keeps; exact HJ]. Qed.
 
-Lemma crash_J_lemma :
-  forall f0 w k torn, J f0 -> ds_inv f0 -> J (crash_w f0 w k torn).
-Proof. intros f0 w k torn HJ HD. apply jsteps_crash; [exact HJ | apply (trace_keeps w f0 HJ HD)]. Qed.
+Lemma crash_J_lemma : forall f0 w k torn, J f0 -> J (crash_w f0 w k torn).
+Proof. intros f0 w k torn HJ. apply jsteps_crash; [exact HJ | apply trace_keeps; exact HJ]. Qed.
 
 Lemma dataset_faithful_lemma :
   forall f0 w k torn K K' h n,
-    J f0 -> ds_inv f0 ->
+    J f0 ->
     lookup (crash_w f0 w k torn) (model_file K) = Some (File [T_MODEL; K'; h; n]) -> n <> 0%N ->
     lookup (crash_w f0 w k torn) (csv n) = Some (File [T_CSV; h]).
-Proof. intros f0 w k torn K K' h n HJ HD. apply (proj2 (crash_J_lemma f0 w k torn HJ HD)). Qed.
+Proof. intros f0 w k torn K K' h n HJ. apply (proj1 (proj2 (crash_J_lemma f0 w k torn HJ))). Qed.
 
 Lemma db_store_succeeds_lemma :
-  forall f m, J f -> ds_inv f -> exists_ f (pending (m_key m)) = false ->
+  forall f m, J f -> exists_ f (pending (m_key m)) = false ->
     item_res (WDbStore m) f = inr tt
     /\ visible (run [WDbStore m] f) (m_key m) = true
-    /\ ds_inv (run [WDbStore m] f) /\ J (run [WDbStore m] f).
+    /\ J (run [WDbStore m] f).
 Proof.
-  intros f m HJ HD Hp. destruct (runs_db_store f m HJ HD Hp) as [[] [f' [[E1 [E2 E3]] [HD' [Hv _]]]]].
+  intros f m HJ Hp. destruct (runs_db_store f m HJ Hp) as [[] [f' [[E1 [E2 E3]] [Hv _]]]].
   unfold item_res, run. cbn [item_prog trace]. rewrite app_nil_r. unfold item_ops. cbn [item_prog].
-  rewrite <- E2. split; [exact E1|]. split; [exact Hv|]. split; [exact HD'|].
+  rewrite <- E2. split; [exact E1|]. split; [exact Hv|].
   apply (runs_J (db_store_model_entry m) f tt f' HJ). split; [exact E1 | split; [exact E2 | exact E3]].
 Qed.
 
@@ -1321,11 +1362,11 @@ Lemma runs_store_key f name K :
   J f -> is_dir f (key_dir K) = true -> is_dir f [CModels] = true ->
   exists f', runs (store_key name K) f tt f'
              /\ (forall q, q <> name_link name -> lookup f' q = lookup f q)
-             /\ (path_exists f (name_link name) = true -> f' = f)
              /\ (path_exists f (name_link name) = false -> lookup f' (name_link name) = Some (Link (key_dir K))).
 Proof.
-  intros HJ Hk Hm. destruct (path_exists f (name_link name)) eqn:Epe.
-  - exists f. split; [|split; [reflexivity | split; [reflexivity | discriminate]]].
+  intros HJ Hk Hm. pose proof (keeps_store_key name K f HJ) as Hsteps.
+  destruct (path_exists f (name_link name)) eqn:Epe.
+  - exists f. split; [|split; [reflexivity | discriminate]].
     unfold runs. rewrite store_key_eq, Epe. cbn. auto.
   - assert (Hke : exists_ f (key_dir K) = true) by (unfold exists_; apply is_dir_lookup in Hk; rewrite Hk; reflexivity).
     assert (Hne : exists_ f (name_link name) = false).
@@ -1333,50 +1374,65 @@ Proof.
       destruct (proj1 HJ _ _ E) as [_ [_ Hl]]. specialize (Hl t eq_refl). apply is_dir_lookup in Hl. rewrite Hl in Epe. discriminate. }
     assert (Happ : apply_op (Symlink (key_dir K) (name_link name)) f = set f (name_link name) (Link (key_dir K))).
     { cbn [apply_op]. rewrite Hne. replace (parent_ok f (name_link name)) with (is_dir f [CModels]) by reflexivity. rewrite Hm. reflexivity. }
-    exists (set f (name_link name) (Link (key_dir K))). split; [|split; [|split; [discriminate|]]].
-    + rewrite <- Happ. apply runs_single.
-      * rewrite store_key_eq, Epe, Hke, Hne. replace (parent_ok f (name_link name)) with (is_dir f [CModels]) by reflexivity.
-        rewrite Hm. reflexivity.
-      * intros j. exact HJ.
-      * split.
-        -- apply step_shape; [exact (proj1 HJ)|]. split; [reflexivity|]. intros t p [= <- <-]. exact Hk.
-        -- eapply link_inv_frame; [| |exact (proj2 HJ)]; intros q Hq; apply apply_op_frame; cbn; intros [= <-]; discriminate.
+    exists (set f (name_link name) (Link (key_dir K))). split; [|split].
+    + unfold runs. rewrite store_key_eq in *. rewrite Epe, Hke in *. rewrite Hne.
+      replace (parent_ok f (name_link name)) with (is_dir f [CModels]) by reflexivity. rewrite Hm. cbn [fst snd] in *.
+      split; [reflexivity|]. split; [|exact Hsteps]. rewrite run_ops_cons, Happ. reflexivity.
     + intros q Hq. apply lookup_set_other. congruence.
     + intros _. apply lookup_set_same.
+Qed.
+
+(* store_annotation: lock, read, write annotations.tmp, os.replace *)
+Lemma rename_file_eq s0 d f :
+  rename_file s0 d f = ([Rename s0 d], if is_file f s0 && can_write f d then inr tt else inl EFileNotFound).
+Proof.
+  unfold rename_file. rewrite bind_get_eq, bind_emit_eq. destruct (is_file f s0 && can_write f d); reflexivity.
 Qed.
 
 Lemma runs_store_annotation f name a c :
   J f -> is_dir f [] = true -> read_node (lookup f annot_path) = Some c ->
   exists f', runs (store_annotation name a) f tt f'
              /\ lookup f' annot_path = Some (File (annot_store c name a))
-             /\ (forall q, q <> annot_path -> q <> annot_lock -> lookup f' q = lookup f q).
+             /\ (forall q, q <> annot_path -> q <> annot_lock -> q <> annot_tmp -> lookup f' q = lookup f q).
 Proof.
   intros HJ H0 Hc. destruct (runs_lock f annot_lock HJ eq_refl eq_refl eq_refl eq_refl H0) as [fa [Ra Fa]].
   assert (HJa : J fa) by (eapply runs_J; eassumption).
   assert (Hca : read_node (lookup fa annot_path) = Some c) by (rewrite Fa by discriminate; exact Hc).
-  assert (Hcw : can_write fa annot_path = true).
-  { apply can_write_file; [exact (proj1 HJa) | reflexivity|]. change (is_dir fa [] = true).
-    unfold is_dir. rewrite Fa by discriminate. exact H0. }
-  exists (set fa annot_path (File (annot_store c name a))). split; [|split].
+  assert (H0a : is_dir fa [] = true) by (unfold is_dir; rewrite Fa by discriminate; exact H0).
+  assert (Hcw : can_write fa annot_tmp = true) by (apply can_write_file; [exact (proj1 HJa) | reflexivity | exact H0a]).
+  pose proof (runs_write_quiet fa annot_tmp (annot_store c name a) HJa eq_refl Hcw) as Rw.
+  set (fb := set fa annot_tmp (File (annot_store c name a))) in *.
+  assert (HJb : J fb) by (eapply runs_J; eassumption).
+  assert (Hcw2 : can_write fb annot_path = true).
+  { apply can_write_file; [exact (proj1 HJb) | reflexivity|]. change (is_dir fb [] = true).
+    unfold is_dir, fb. rewrite lookup_set_other by discriminate. exact H0a. }
+  assert (Htmp : lookup fb annot_tmp = Some (File (annot_store c name a))) by apply lookup_set_same.
+  assert (Hq : jquiet (Rename annot_tmp annot_path) = true) by reflexivity.
+  destruct (jquiet_step fb _ Hq HJb) as [T J'].
+  assert (Happ : apply_op (Rename annot_tmp annot_path) fb = set (remove fb annot_tmp) annot_path (File (annot_store c name a))).
+  { cbn [apply_op]. rewrite Htmp, Hcw2. reflexivity. }
+  exists (set (remove fb annot_tmp) annot_path (File (annot_store c name a))). split; [|split].
   - unfold store_annotation. eapply runs_bind; [exact Ra|]. eapply runs_bind.
     + apply (runs_noop _ (OpenR annot_path)); [exact HJa | rewrite read_file_eq, Hca; reflexivity | reflexivity | reflexivity].
-    + apply runs_write_quiet; [exact HJa | reflexivity | exact Hcw].
+    + eapply runs_bind; [exact Rw|]. rewrite <- Happ. apply runs_single; [|exact T | exact J'].
+      rewrite rename_file_eq. unfold is_file. rewrite Htmp, Hcw2. reflexivity.
   - apply lookup_set_same.
-  - intros q H1 H2. rewrite lookup_set_other by congruence. apply Fa. exact H2.
+  - intros q H1 H2 H3. rewrite lookup_set_other, lookup_remove_other by congruence. unfold fb.
+    rewrite lookup_set_other by congruence. apply Fa. exact H2.
 Qed.
 
 Lemma ctx_store_succeeds_lemma :
   forall f m c,
-    J f -> ds_inv f -> ctx_ok f -> read_node (lookup f annot_path) = Some c ->
+    J f -> ctx_ok f -> read_node (lookup f annot_path) = Some c ->
     exists_ f (pending (m_key m)) = false ->
     item_res (WStore m) f = inr tt
     /\ visible (run [WStore m] f) (m_key m) = true
     /\ (path_exists f (name_link (m_name m)) = false -> resolve_name (run [WStore m] f) (m_name m) = Some (m_key m))
     /\ read_node (lookup (run [WStore m] f) annot_path) = Some (annot_store c (m_name m) (m_desc m))
-    /\ ds_inv (run [WStore m] f) /\ J (run [WStore m] f) /\ ctx_ok (run [WStore m] f).
+    /\ J (run [WStore m] f) /\ ctx_ok (run [WStore m] f).
 Proof.
-  intros f m c HJ HD [H0 [Hmod Hann]] Hc Hp. set (K := m_key m) in *.
-  destruct (runs_db_store f m HJ HD Hp) as [[] [f1 [R1 [HD1 [Hv1 [Hk1 F1]]]]]]. fold K in Hv1, Hk1, F1.
+  intros f m c HJ [H0 [Hmod Hann]] Hc Hp. set (K := m_key m) in *.
+  destruct (runs_db_store f m HJ Hp) as [[] [f1 [R1 [Hv1 [Hk1 F1]]]]]. fold K in Hv1, Hk1, F1.
   assert (HJ1 : J f1) by (eapply runs_J; eassumption).
   assert (Hrun1 : f1 = run_ops (fst (db_store_model_entry m f)) f) by (apply R1).
   assert (H01 : is_dir f1 [] = true) by (rewrite Hrun1; apply is_dir_mono_ops; exact H0).
@@ -1384,7 +1440,7 @@ Proof.
   assert (Fr1 : forall q, (q = annot_path \/ q = name_link (m_name m)) -> lookup f1 q = lookup f q).
   { intros q [-> | ->]; apply F1; try reflexivity; try discriminate;
       intros Hpre; apply prefix_firstn in Hpre; cbn in Hpre; discriminate. }
-  destruct (runs_store_key f1 (m_name m) K HJ1 Hk1 Hmod1) as [f2 [R2 [F2 [_ Hlink]]]].
+  destruct (runs_store_key f1 (m_name m) K HJ1 Hk1 Hmod1) as [f2 [R2 [F2 Hlink]]].
   assert (HJ2 : J f2) by (eapply runs_J; eassumption).
   assert (H02 : is_dir f2 [] = true) by (unfold is_dir; rewrite F2 by discriminate; exact H01).
   assert (Hc2 : read_node (lookup f2 annot_path) = Some c).
@@ -1395,7 +1451,7 @@ Proof.
   { unfold ctx_store. eapply runs_bind; [exact R1|]. eapply runs_bind; [exact R2 | exact R3]. }
   assert (Efin : run [WStore m] f = f3).
   { unfold run. cbn [trace]. rewrite app_nil_r. unfold item_ops. cbn [item_prog]. symmetry. apply Rall. }
-  rewrite Efin. split; [apply Rall|]. split; [|split; [|split; [|split; [|split]]]].
+  rewrite Efin. split; [apply Rall|]. split; [|split; [|split; [|split]]].
   - unfold visible, exists_, is_file in *. rewrite !F3 by discriminate. rewrite !F2 by discriminate. exact Hv1.
   - intros Hpe. apply resolve_name_spec. rewrite F3 by discriminate. apply Hlink.
     unfold path_exists in *. rewrite Fr1 by (right; reflexivity).
@@ -1403,7 +1459,6 @@ Proof.
     destruct (proj1 HJ _ _ El) as [_ [_ Hl]]. specialize (Hl t eq_refl). unfold exists_ in Hpe.
     apply is_dir_lookup in Hl. rewrite Hl in Hpe. discriminate.
   - rewrite Ha3. reflexivity.
-  - eapply ds_inv_frame; [|exact HD1]. intros q Hq. rewrite F3 by (intros ->; discriminate). apply F2. intros ->. discriminate.
   - exact HJ3.
   - split; [|split].
     + unfold is_dir. rewrite F3 by discriminate. exact H02.
